@@ -201,7 +201,7 @@ def _drive_nearins(sc):
     kind = KINDS[sc["kind"]]
     while True:
         ref = []
-        while len(ref) < 200:                      # reference over {A, C, T} without homopolymer runs
+        while len(ref) < 101000:                   # reference over {A, C, T} without homopolymer runs (long: > 100 kb alignments)
             b = rng.choice("ACT")
             if not ref or ref[-1] != b:
                 ref.append(b)
@@ -253,6 +253,18 @@ def _drive_nearins(sc):
                 blocks, end = _blocks(r1[0], ops)
                 tmeta[name] = {"segs": [{"rs": r1[0], "re": end, "cig": [[OPC[o], m] for o, m in ops], "qlen": len(r1[2] + r2[2]), "blocks": blocks}],
                                "allele": a, "so": -48, "eo": tail}
+    # an alignment whose reference span exceeds 100 kb (a long skip BEHIND the variant): still one usable alignment
+    for a in (0, 1):
+        hp = W.Haplotype(ref, [V], [a])
+        r1 = hp.read(hp.ref_to_hap(P - 30), hp.ref_to_hap(P + len(V.ref) + 12))
+        far = P + 100500
+        r2 = hp.read(hp.ref_to_hap(far), hp.ref_to_hap(far + 30))
+        ops = list(r1[1]) + [("N", r2[0] - (r1[0] + W.cigar_reflen(r1[1])))] + list(r2[1])
+        name = f"t{len(treads):04d}"
+        treads.append({"name": name, "flag": 0, "ref": 0, "pos": r1[0], "cigar": W.cigar_str(ops), "seq": r1[2] + r2[2], "rg": "rg1"})
+        blocks, end = _blocks(r1[0], ops)
+        tmeta[name] = {"segs": [{"rs": r1[0], "re": end, "cig": [[OPC[o], m] for o, m in ops], "qlen": len(r1[2] + r2[2]), "blocks": blocks}],
+                       "allele": a, "so": -30, "eo": 12}
     d = workdir()
     try:
         if treads:
